@@ -4,6 +4,10 @@ from ..domain import Domain, BoundaryDomain
 from ...spaces import Points
 
 
+# tolerance for points at the bounds, relative to the length of the interval
+BOUND_TOL = 1.0e-5
+
+
 class Interval(Domain):
     """Creates a Interval of the form [a, b].
 
@@ -107,8 +111,15 @@ class IntervalBoundary(BoundaryDomain):
         lb = self.domain.lower_bound(points.join(params))
         ub = self.domain.upper_bound(points.join(params))
         points = points[:, list(self.space.keys())].as_tensor
-        close_to_left = torch.isclose(points[:, None], lb)
-        close_to_right = torch.isclose(points[:, None], ub)
+        # the end points are compared with a tolerance relative to the length of the
+        # interval (isclose alone is only relative to the value of the bound)
+        tol = BOUND_TOL * torch.abs(ub - lb)
+        close_to_left = torch.logical_or(
+            torch.isclose(points[:, None], lb), torch.abs(points[:, None] - lb) <= tol
+        )
+        close_to_right = torch.logical_or(
+            torch.isclose(points[:, None], ub), torch.abs(points[:, None] - ub) <= tol
+        )
         return close_to_left, close_to_right
 
     def sample_random_uniform(
@@ -162,8 +173,13 @@ class IntervalSingleBoundaryPoint(BoundaryDomain):
 
     def _contains(self, points, params=Points.empty()):
         side = self.side(points.join(params))
+        lb = self.domain.lower_bound(points.join(params))
+        ub = self.domain.upper_bound(points.join(params))
         points = points[:, list(self.space.keys())].as_tensor
-        inside = torch.isclose(points[:, None], side)
+        inside = torch.logical_or(
+            torch.isclose(points[:, None], side),
+            torch.abs(points[:, None] - side) <= BOUND_TOL * torch.abs(ub - lb),
+        )
         return inside.reshape(-1, 1)
 
     def sample_random_uniform(
